@@ -1367,6 +1367,17 @@ class Fxp():
         if self.status['inaccuracy']: y.status['inaccuracy'] = True     # propagate inaccuracy from operand
         return y          
 
+    def __matmul__(self, x):
+        from .functions import matmul
+
+        if not isinstance(x, Fxp):
+            x = self._convert_op_input_value(x)
+            _sizing = self.config.const_op_sizing
+        else:
+            _sizing = self.config.op_sizing
+
+        return matmul(self, x, out=self.config.op_out, out_like=self.config.op_out_like, sizing=_sizing, method=self.config.op_method)
+
     def __add__(self, x):
         from .functions import add
         
